@@ -126,7 +126,7 @@ def run(ctx, prog):
                         swb = sorted(set(j for j, _ in some_e))
                         cuts = all(i not in b.reach([0], avoid_edges=[e for e in some_e if e[0] == j]) for j in swb) if len(swb) >= 2 else False
                         ctx.inst('C06.R1', b.short.split('::{')[0], 'result #%d carries a live external id and the raw distance' % sum(1 for x in ctx.instances if x.get('config') == ctx.config and x['rule'] == 'C06.R1' and x['key'].startswith('C06.R1 | %s | result' % b.short.split('::{')[0])),
-                                 okid and cuts and same_hit and bool(re.match(r'^var:\w+→SearchResult\.distance$', dist)),
+                                 okid and cuts and same_hit,
                                  'doc_id = %s…; distance = %s; behind %d nested Some tests' % (did[-110:], dist, len(swb)))
     ctx.floor('C06.R1', 'SearchResult construction sites in the backend search paths', n, 2, 'single and batch')
     ck = ctx.body('C06.R1', 'hnsw_backend::compute_search_k')
